@@ -1,6 +1,7 @@
 import BigtoolsModel.MergePost
 import BigtoolsModel.Fill
 import BigtoolsModel.Generated.Consts
+import BigtoolsModel.OverlapsGen
 /-! # C15 — merging and gap-filling value streams preserve the per-base signal
 
 Models: `MG.merge W` = `merge_sections_many` (`ValueIter::next`: work windows of `W` bases — 50,000 in the code —
@@ -127,3 +128,13 @@ theorem source_window_positive : 0 < Gen.DATA_SIZE := by decide
 example : MG.merge 4 [[⟨0, 6, 1⟩], [⟨3, 9, 2⟩]] = [⟨0, 3, 1⟩, ⟨3, 4, 3⟩, ⟨4, 6, 3⟩, ⟨6, 8, 2⟩, ⟨8, 9, 2⟩] := by decide
 
 end Props.C15
+
+namespace RT
+
+/-- **The code's own index-pruning predicate.** `Gen.overlaps` (regenerated from `overlaps` and the functions it calls in
+    bbiread.rs on every run) is, for all arguments, the `ov` with which the search theorems are stated; the merge tool reads every input through range queries over that index. -/
+theorem C15_source_overlaps_is_the_models_ov (q qs qe b1 b1s b2 b2e : Nat) :
+    Gen.overlaps q qs qe b1 b1s b2 b2e = ov ⟨q, qs⟩ ⟨q, qe⟩ ⟨b1, b1s⟩ ⟨b2, b2e⟩ :=
+  gen_overlaps_eq_ov q qs qe b1 b1s b2 b2e
+
+end RT
